@@ -124,6 +124,15 @@ def across_holders(chk, workdir):
                 continue
             if get().id != want or src.id != want or get().encode('<') != src.encode('<'):
                 chk.property_violation(casej, {'what': 'after copy_from the two messages differ', 'ids': [get().id, src.id]})
+    # the library's own `==` on the copied composite array (compares elements by identity: known finding D141)
+    other = mod.Resp()
+    other.copy_from(resp)
+    chk.count(('holders', 'array =='), True)
+    if not (other.items == resp.items) or (other.items != resp.items):
+        chk.property_violation({'schema': text, 'operation': 'other.copy_from(resp); other.items == resp.items'},
+                               {'what': 'the copied composite array does not compare equal to its source (fields, str() and encodings do)',
+                                'encodings_equal': other.encode('<') == resp.encode('<')},
+                               lambda c, dt: 'D141' if dt.get('encodings_equal') else None)
     # unions held by optional fields
     req.un = True
     req.un.discriminator = 2
